@@ -20,9 +20,15 @@ using stir::shared_ptr;
 // A cylindrical user-defined scanner with ndet detectors per ring (even), nrings rings.
 // tof_bins > 0 gives a TOF-capable scanner with that many timing positions.
 inline shared_ptr<stir::Scanner>
-make_scanner(int ndet, int nrings, int tof_bins = 0, float radius = 80.f, float ring_spacing = 4.f, float bin_size = 2.f)
+make_scanner(int ndet, int nrings, int tof_bins = 0, float radius = -1.f, float ring_spacing = 4.f, float bin_size = -1.f)
 {
   using stir::Scanner;
+  // small ring whose central bin size matches the default voxel size, so that an image of ~8 voxels across is crossed
+  // by the LORs of several tangential positions (otherwise most rows of the small test images would be empty)
+  if (radius <= 0)
+    radius = 1.25f * ndet;
+  if (bin_size <= 0)
+    bin_size = radius * 3.14159265f / ndet;
   shared_ptr<Scanner> s(new Scanner(Scanner::User_defined_scanner,
                                     std::string("SimScanner"),
                                     ndet,
